@@ -155,6 +155,13 @@ def _post(w: Random, c: _Counter, depth: int) -> dict:
         return _template_item(w, c, "post")
     if r < 0.8:
         return {"type": "nest", "items": [_post(w, c, depth + 1) for _ in range(w.randint(1, 2))]}
+    if r < 0.9:
+        # a format-string template that walks from the objects it is given to module globals; reading the lazily
+        # computed platform.uname().processor there starts a process ('uname -p')
+        return {"type": "simple_template", "template": "{query} " + gen.pick(w, [
+            "{pipeline.apply.__globals__[os].sys.modules[platform]._uname_cache.processor}",
+            "{rule.to_dict.__globals__[sigma_exceptions].sys.modules[platform]._uname_cache.processor}",
+            "{rule.title} {pipeline.state}"])}
     return {"type": "embed", "prefix": "[", "suffix": "]"}
 
 
